@@ -38,6 +38,27 @@ def heap_slice_conf(name, nq, nt, rule):
     c["run_show"] = "heap_or_slice_model"
     return c
 
+JSON_TRUSTED = [
+    "oracles: strconv.FormatFloat(x,'e'|'f',-1,64) and strconv.ParseFloat(s,64) are Section variables in the theorems with contract F1 (a finite value's text "
+    "parses back to it), F2 (the text has the shape of a JSON number), F3 (true/false are not floats); executions use per-case tables produced by Go, and the "
+    "contract is re-validated inside Coq on every table entry of every case",
+    "modelled, not verified (hand transcriptions, validated differentially on every run): utf8.DecodeRuneInString, utf8.AppendRune, unicode.IsSpace, strconv.Itoa, "
+    "strconv.ParseInt(base 0), strconv.ParseBool, strconv.Unquote (double-quote case), json.Indent (spec-level: reference decoder + canonical re-layout)",
+    "RFC 8259 is the generative grammar of JsonDoc.v; cross-validated against encoding/json in both directions on every text (json.Valid(s) <-> ref_parse s <> None)",
+    "encoding/json (UseNumber) is the independent decoder of the harness predicates",
+]
+def json_conf(nq, nt, rule, per_shard=40):
+    return {
+        "n": {"quick": nq, "thorough": nt},
+        "per_shard": per_shard,
+        "run_header": "From Anytype Require Import Base FloatBits Value Json JsonDoc RunCommon RunJson.\nLocal Open Scope Z_scope.\n",
+        "run_check": "json_check",
+        "run_show": "json_show",
+        "rule": rule,
+        "trusted": list(JSON_TRUSTED),
+        "assumptions": ["floats finite and strings valid UTF-8 inside the theorems' domain (other inputs are still modelled and compared)"],
+    }
+
 PROPS = {
     "C18": {
         "n": {"quick": 4000, "thorough": 200000},
@@ -115,4 +136,23 @@ PROPS = {
     "C11": heap_conf("C11", 800, 40000,
         "random trees, 6-15 SetTF/UnsetTF per program on well-formed paths (existing / partially existing / new; index < n, = n, > n; intermediates "
         "scalar, nil, other container kind, right kind) with scalar and container values, plus 12% corrupted paths; whole-heap canonical hash after every step"),
+    "C01": json_conf(1000, 60000,
+        "acyclic container trees (root list or object, depth <= 4, width <= 5) biased to the thin slices: whole-valued floats below 1e6, +-0, subnormals, "
+        "1e+-300, 17-digit mantissas, MinInt/MaxInt, strings and keys from code-point classes {C0, DEL, quote, backslash, solidus, C1, U+2028/9, U+FFFD, "
+        "surrogate-adjacent, astral, unassigned}, the empty key; every 11th case a single-code-point string as value and key; non-trivial = at least 4 nodes; distinct by canonical form"),
+    "C02": json_conf(1000, 60000,
+        "trees as in C01 (plus every 11th with non-finite floats: outside the theorem, inside the model); String() is checked by the Coq reference decoder, "
+        "against the model's serialisation token by token, and decoded by encoding/json"),
+    "C03": json_conf(1500, 80000,
+        "grammar-generated valid JSON texts with array/object root: whitespace from {space, tab, LF, CR} in every slot, all 8 short escapes, \\uXXXX in both hex cases incl. controls "
+        "and U+FFFD, surrogate pairs, 38 number spellings incl. int64 boundaries and 30-digit ints, duplicate keys, text around the root; parsed tree compared with the model and with encoding/json"),
+    "C04": json_conf(2500, 150000,
+        "five streams: proper prefixes of serialised documents (last-byte cut and random cuts), 17 kinds of ill-formed UTF-8 inserted between the root brackets, garbage over a "
+        "32-symbol alphabet, mutated documents (flip/delete/insert/duplicate), ParseFile on temp files / a missing path / a directory; each input parsed twice", per_shard=100),
+    "C16": json_conf(700, 40000,
+        "trees as in C02 x indents {one of -1,11,-5,100; 0; one of 1..4; one of 5,7,10}: FormatString bytes are checked to be the canonical re-layout (fix point of relayout and of "
+        "indent_text) of exactly the tokens String() writes; panics outside 0..10", per_shard=25),
+    "C20": json_conf(1500, 80000,
+        "multi-line documents (newlines in every whitespace slot, nested containers, 0-3 lines of text before the root, text after it) with one injected error: invalid literal, "
+        "wrong character instead of ':', unquoted key; class, cited line and cited character/token compared with the model", per_shard=100),
 }
